@@ -60,8 +60,14 @@ def convert(leaf, v, tr, tables):
     if k == "ac":
         if v is None:
             return ("c", (float("nan"), float("nan")))
-        a = float("nan") if not str(v[0]).strip() else exact_float(v[0])
-        b = float("nan") if not str(v[1]).strip() else exact_float(v[1])
+        ba = v[0] is None or not str(v[0]).strip()
+        bb = v[1] is None or not str(v[1]).strip()
+        a = float("nan") if ba else exact_float(v[0])
+        b = float("nan") if bb else exact_float(v[1])
+        if ba != bb:
+            # one half blank: that component is missing (NaN), never a fabricated number; the other one keeps its value or is
+            # dropped with it -- both are "missing", an exception is not
+            return ("c-any", [(a, b), (float("nan"), float("nan"))])
         return ("c", (a, b))
     if k == "s":
         return ("U", "" if v is None else v.strip())
@@ -275,6 +281,8 @@ def value_matches(got, want, ulp=4):
             return abs((parse_iso(got[1]) - want[1]).total_seconds()) <= 1.5e-6
         except ValueError:
             return False
+    if want[0] == "c-any":
+        return got[0] == "c" and any(project._feq(got[1][0], w[0], ulp) and project._feq(got[1][1], w[1], ulp) for w in want[1])
     if want[0] == "f-any":
         return got[0] == "f" and any(project._feq(got[1], w, ulp) for w in want[1])
     if want[0] == "f" and got[0] == "f":
